@@ -6,6 +6,7 @@ harness/src/suite_e.rs): per table `name:n:fnv:n:fnv:n:fnv` over the canonical t
 persisted histories and the in-memory histories; block tables; latest; max; block under construction.
 -/
 import Brc20.Model.Node
+import Brc20.Model.Logs
 
 namespace Brc20.DriverE
 open Brc20.Node
@@ -74,6 +75,35 @@ def readStep (n : Node) (rawEvents : List String) (evs : List Ev) : Node × Clas
 
 def strip0x (s : String) : String := if s.startsWith "0x" then (s.drop 2).toString else s
 
+/-- `logsq`: the filter, every log the receipts hold (chain order, `block.tx.log@address/topic/...`), answered by
+`Logs.getLogs` (stateless: the chain's logs arrive on the line). -/
+def logsq (g : String → String) : String :=
+  let optNat := fun (s : String) => if s == "-" then none else some s.toNat!
+  let parseLog := fun (e : String) =>
+    match e.splitOn "@" with
+    | [idn, rest] =>
+      let ps := rest.splitOn "/"
+      let blk := ((idn.splitOn ".").headD "0").toNat!
+      some (blk, idn, ({ address := ps.headD "", topics := (ps.drop 1).filter (· ≠ "") } : Logs.Log))
+    | _ => none
+  let all := if g "all" == "-" then [] else ((g "all").splitOn ";").filterMap parseLog
+  let pos := fun (p : String) =>
+    if p == "-" then Logs.Pos.any
+    else if p.startsWith "[" then
+      Logs.Pos.alts ((((p.drop 1).toString.dropEnd 1).toString.splitOn "|").map some)
+    else Logs.Pos.one p
+  let topics := if g "topics" == "none" then none else some (((g "topics").splitOn ",").map pos)
+  let addr := if g "addr" == "-" then none else some (g "addr")
+  -- identities travel with the logs: filter on the pair, print the identity
+  let inRange := fun (f t : Nat) => all.filter (fun (e : Nat × String × Logs.Log) => decide (f ≤ e.1) && decide (e.1 ≤ t))
+  let latest := (g "latest").toNat!
+  match Logs.getLogs latest (optNat (g "from")) (optNat (g "to")) addr topics (fun f t => (inRange f t).map (·.2.2)) with
+  | none => "err"
+  | some ls =>
+    let (f, t) := Logs.resolveRange latest (optNat (g "from")) (optNat (g "to"))
+    let ids := ((inRange f t).filter (fun e => Logs.logMatches addr topics e.2.2)).map (·.2.1)
+    if ids.length = ls.length then "ok " ++ ",".intercalate ids else "model-inconsistent"
+
 def step (n : Node) (line : String) : Node × String :=
   let parts := line.splitOn " ## "
   let head := (parts.headD "").trimAscii.toString
@@ -110,6 +140,7 @@ def step (n : Node) (line : String) : Node × String :=
   | "reopen" => fin (n.reopen, .ok)
   | "reorg" => fin (n.reorg (num "n"))
   | "read" => fin (readStep n (parts.drop 1) evs)
+  | "logsq" => (n, logsq g)
   | _ => (n, "bad-op")
 
 end Brc20.DriverE
